@@ -212,6 +212,7 @@ func checkC08(r *report.Report, tier string, seed int64) error {
 	selOpt.MaxFields = 3
 	selOpt.Explicit = 0.1
 	selOpt.Hooks = 0
+	selOpt.Embedding = 0.3 // methods that reach the converter interface through an embedded one count too
 	if err := pipelineCheck(r, "C08", seed, tierN(tier, 48, 600), selOpt, func(i int) *gen.Case { return gen.GenerateSelection(seed, i, selOpt) }, nil,
 		func(cr *caseRun) [][2]string {
 			var vs [][2]string
@@ -264,6 +265,7 @@ func checkC09(r *report.Report, tier string, seed int64) error {
 	opt.MaxFields = 5
 	opt.Hooks = 0.1
 	opt.Embedding = 0.3
+	opt.SkipTwins = 0.15
 	n := tierN(tier, 56, 1500)
 	r.Rule = "files with 1-3 converter interfaces x 1-3 methods, interface-level {unset,on,off} toggles, :style and :match on most interfaces, method-level overrides, per-method :skip/:map/:conv/:literal lists; metamorphic oracle on the real tool: the function generated for each method in the full file must equal the function generated from a file containing only that method (under its interface's notations); plus the correspondence with the model, whose effective options are apply(method doc, apply(interface doc, defaults)); non-trivial = at least two methods in the file; distinct by file contents"
 	type pending struct {
